@@ -59,6 +59,16 @@ def merge_shards(rs):
     m["followups"] = [f for r in rs for f in r["followups"]]
     m["followup_bad"] = [f for r in rs for f in r["followup_bad"]]
     ex = sorted((e for r in rs for e in r["examples"]), key=lambda e: e["length"])
+    wfs = [r["write_faults"] for r in rs]
+    m["write_faults"] = {"ks": sum(x["ks"] for x in wfs), "requests": sum(x["requests"] for x in wfs),
+                         "prefix_left": sum(x["prefix_left"] for x in wfs),
+                         "bad": sorted(b for x in wfs for b in x["bad"]), "by_errno": {}, "examples": []}
+    for x in wfs:
+        for k_, v_ in x["by_errno"].items():
+            m["write_faults"]["by_errno"][k_] = m["write_faults"]["by_errno"].get(k_, 0) + v_
+        for e in x["examples"]:
+            if sum(1 for f in m["write_faults"]["examples"] if f["class"] == e["class"]) < 3:
+                m["write_faults"]["examples"].append(e)
     m["examples"] = [e for i, e in enumerate(ex)
                      if sum(1 for f in ex[:i] if (f["class"], f["fault"]) == (e["class"], e["fault"])) < 3]
     return m
@@ -69,7 +79,7 @@ def dir_job(rng, k, tier):
     return {"op": "c11_dir", "tree": gen_tree(rng, k), "protokeys": c10.protokeys(), "writer_key": rng.choice(keys),
             "proto_seq": [rng.choice(keys) for _ in range(97)], "life": 180, "followup_every": 61,
             "hole_lengths": [1, 2, 4, 16, 64, 512] if tier == "thorough" else [1, 3, 17, 256],
-            "hole_step": 1 if tier == "thorough" else 3}
+            "hole_step": 1 if tier == "thorough" else 3, "fault_stride": 1 if tier == "thorough" else 12}
 
 
 def zip_job(rng, activated, tier="quick"):
@@ -146,6 +156,7 @@ def run(tier):
     res.append(raw[-1])
     found = False
     cases_rep, cases_pin = [], []
+    wf_cases = []
     per_dir = []
     codec_bad = []
     holes_total = {"tried": 0, "accepted": 0, "accepted_and_different": 0, "memory_errors": 0, "examples": []}
@@ -187,6 +198,30 @@ def run(tier):
                 chk.violation({"what": "cache file replaced by a %s file of full length (%d bytes): reply is %s"
                                        % (label, size, cls), "example": [e for e in d["examples"] if e["fault"] == label][:1],
                                "job": dict(job, range=[size, size])}, tag="dircache-undecodable-%s-reply" % ("empty" if cls == "empty" else "wrong"))
+        wf = d["write_faults"]
+        for n_ in range(wf["requests"]):
+            chk.count(("wf", len(per_dir), n_), nontrivial=True)
+        per_dir[-1]["persistent_write_faults"] = {"cut_points": wf["ks"], "requests": wf["requests"], "by_errno": wf["by_errno"],
+                                                 "prefix_left_on_disk": wf["prefix_left"], "failures": len(wf["bad"])}
+        hdr = "(180%Z, 1000000%Z, 0, true)"
+        for cls_ in sorted({b[2] for b in wf["bad"]} | {"ok"}):
+            o_ = {"ok": "([0], 1)", "empty": "([], 2)", "wrong": "([], 1)", "not-rewritten": "([0], 1)"}[cls_]
+            o3 = "([0], 1)" if cls_ != "not-rewritten" else "([], 2)"
+            wf_cases.append("(%s, [KListF 2; KTick 30%%Z; KListF 5; KTick 30%%Z; KList 1], [%s; %s; %s])" % (hdr, o_, o_, o3))
+        seen_wf = set()
+        for k_, ename, cls_ in wf["bad"]:
+            found = True
+            tag = "dircache-write-fault:" + {"empty": "empty-reply", "wrong": "wrong-reply", "not-rewritten": "not-rewritten"}[cls_]
+            if tag in seen_wf:
+                continue
+            seen_wf.add(tag)
+            ex = next((e for e in wf["examples"] if e["class"] == cls_), None)
+            chk.violation({"what": "the file system has room for only %d of the %d bytes of the cache file (%s, persistent): "
+                                   "a listing request is not answered with the listing" % (k_, size, ename)
+                           if cls_ != "not-rewritten" else
+                           "after write faults the cache file is not rewritten once space is available",
+                           "failing": wf["bad"][:30], "example": ex,
+                           "job": dict(job, range=[0, -1], fault_only=[k_])}, tag=tag)
         if d["not_restored"] and not (d["prefix_fail_counts"]["empty"] or d["prefix_fail_counts"]["wrong"]):
             found = True
             chk.violation({"what": "after a request that met a damaged cache file the file is not a complete fresh entry",
@@ -237,6 +272,7 @@ def run(tier):
         found = True
         chk.violation({"what": "ZIP index cache file cut off: listing/member differs from the undamaged answer",
                        "failures": zres["fails"], "examples": zres["examples"], "job": jobs[-1]}, tag="zipcache-prefix")
+    cases_rep += wf_cases
     mism, err, nsh = coq_eval("C11", "k_rep", "Lib.Str Corr.K10", "chk_hist", cases_rep, shard=200)
     mism_p, err_p, _ = coq_eval("C11", "k_pin", "Lib.Str Corr.K10", "chk_hist", cases_pin, shard=200)
     behaves = "repaired" if not mism and not err else ("pinned" if not mism_p and not err_p else "neither")
@@ -263,7 +299,11 @@ def run(tier):
                    "prefix length 0..size-1 plus the zero-filled and the 0xFF-filled file of full length put in "
                    "its place (mtime = now, i.e. fresh) and the listing requested through a seeded protocol sequence; reply "
                    "compared with the cacheless listing, the file afterwards with a complete entry, every 61st followed by a "
-                   "second request; deterministic schedules of 2-3 concurrent requests that all observe the same cut-off file (5 cut "
+                   "second request; persistent write faults: for cut points k (every k in the thorough tier, every 12th in quick, "
+                   "always 0,1,2,size-1) the cache write path has room for k bytes only (ENOSPC/EDQUOT/EIO by wrapping "
+                   "VFS_Real.open from outside, EFBIG by the kernel via RLIMIT_FSIZE) for two consecutive requests, starting from "
+                   "an absent / expired / cut-off cache file, then a third request with space available: all three replies "
+                   "compared with the cacheless listing, the file afterwards with a complete entry; deterministic schedules of 2-3 concurrent requests that all observe the same cut-off file (5 cut "
                    "points) or a writer that has truncated but not written, compared with Model/Conc.v and the sequential answer; "
                    "same enumeration over the three ZIP index cache files; non-trivial = every such request")
     chk.sample({"kind": "directory", **{k: v for k, v in per_dir[0].items() if k != "pickle"}})
@@ -283,7 +323,8 @@ def run(tier):
         "pickle framing: decode(enc l) = l and every strict prefix of a complete cache file fails to load — hypotheses of "
         "C11_prefix_harmless, checked exhaustively per generated cache file against real pickle, not proved about CPython",
         "a damaged file is given mtime = now (the worst case: it is considered fresh); older damaged files are misses in both variants",
-        "faults are injected with open('wb')+write, the system calls of an interrupted writer",
+        "faults are injected with open('wb')+write, the system calls of an interrupted writer; persistent write faults "
+        "by a file object that stores what fits and then raises, or by RLIMIT_FSIZE (C11_save_outcome_irrelevant)",
     ]
     return chk.finish("proof")
 
@@ -302,6 +343,10 @@ def replay(path):
     d = r["res"]
     bad = d.get("prefix_fail_counts") or {}
     n = sum(bad.values()) + sum(1 for v in (d.get("others") or {}).values() if v != "ok") + d.get("nfails", 0)
+    wf = d.get("write_faults") or {}
+    n += len(wf.get("bad", []))
+    if wf.get("bad"):
+        print("write faults:", wf["bad"][:10], json.dumps(wf.get("examples", [])[:1], indent=1)[:1500])
     print(json.dumps({k: d.get(k) for k in ("size", "range", "prefix_fail_ranges", "others", "examples", "fails")}, indent=1)[:3000])
     print("REPRODUCED" if n else "not reproduced")
     return 1 if n else 0
